@@ -43,6 +43,11 @@ let () =
         | ["pyfloat"; tbl; s] -> m_pyfloat (utable tbl) (cps s)
         | ["pycomplex"; tbl; s] -> m_pycomplex (utable tbl) (cps s)
         | ["isdigit"; tbl; s] -> m_isdigit (utable tbl) (cps s)
+        | ["read"; ut; lt; s] -> m_read (utable ut) (table lt) (cps s)
+        | ["sym_ok"; ut; s] -> m_sym_ok (utable ut) (cps s)
+        | ["kw_ok"; s] -> m_kw_ok (cps s)
+        | ["str_ok"; d; s] -> m_str_ok (cps d) (cps s)
+        | ["render_bracket"; d; s] -> m_render_bracket (cps d) (cps s)
         | _ -> failwith ("bad line: " ^ line)
       in
       print_string (show out); print_char '\n'
